@@ -261,6 +261,13 @@ func (c01w) Exec(in Sx) (Sx, bool) {
 		}
 		out = append(out, o)
 	}
+	// what the constructor reports as the backend's DigestKeyFormat (outer decorators key their
+	// caches by it): 1 = keys carry the instance name
+	kf := 0
+	if info.DigestKeyFormat == digest.KeyWithInstance {
+		kf = 1
+	}
+	out = append(out, L(A(9), AI(kf)))
 	return L(out...), true
 }
 
@@ -519,6 +526,9 @@ func (c01w) Class(in, obs Sx) (string, bool) {
 	}
 	reads, lost, detected := 0, 0, 0
 	for k, o := range obs.List {
+		if k >= in.Nth(3).Len() {
+			break
+		}
 		if o.Len() >= 2 && o.Nth(0).Int() == 0 && in.Nth(3).Nth(k).Nth(0).Int() == 5 {
 			if o.Nth(1).Int() == 0 {
 				reads++
